@@ -53,11 +53,39 @@ def cased(v):
     return False
 
 
+_MODULE_CONSTS = {}
+
+
 def lit(node):
     try:
         return ast.literal_eval(node)
     except Exception:
-        return None
+        pass
+    # a module-level name for a literal (CHARS = frozenset("...") / ("a", "b")), bound once in its module
+    if isinstance(node, ast.Name):
+        mod = getattr(getattr(node, "_module", None), "tree", None)
+        p_ = node
+        while mod is None and p_ is not None:
+            mod = getattr(getattr(p_, "_module", None), "tree", None)
+            p_ = getattr(p_, "_parent", None)
+            if isinstance(p_, ast.Module):
+                mod = p_
+        if mod is not None:
+            key = (id(mod), node.id)
+            if key not in _MODULE_CONSTS:
+                binds = [st for st in mod.body if isinstance(st, ast.Assign) and any(isinstance(t, ast.Name) and t.id == node.id for t in st.targets)]
+                val = None
+                if len(binds) == 1:
+                    v = binds[0].value
+                    if isinstance(v, ast.Call) and isinstance(v.func, ast.Name) and v.func.id in ("frozenset", "set", "tuple") and len(v.args) == 1:
+                        v = v.args[0]
+                    try:
+                        val = ast.literal_eval(v)
+                    except Exception:
+                        val = None
+                _MODULE_CONSTS[key] = val
+            return _MODULE_CONSTS[key]
+    return None
 
 
 def has_fold(expr):
@@ -155,7 +183,7 @@ def rule_G6(ck):
             if not folded(fn, var, node.lineno):
                 ck.violation(node, f"'{text[:80]}' compares text from the source file with a cased constant without folding case: the upper-case spelling of the same program is treated differently",
                              construct=f"unfolded comparison {text[:70]}")
-    if n_src < 12:
+    if n_src < 8:      # about 20 on the pinned tree; membership sets and helpers merge several of them
         ck.unknown(f"only {n_src} source-text sinks found (about 20 confirmed by hand)")
 
 
